@@ -554,11 +554,17 @@ func genC19(r *simrt.Rand, tier string) any {
 		sc := &LimScn{Kind: "C19", Sched: RandSched(r)}
 		sc.Sched.HorizonS = 600
 		sc.Cfg = LimCfg{Global: 1 + r.Int(3), PerIP: 1, PerIPBurst: 1 + r.Int(2), PerConn: 0, CleanupMs: 300000}
-		var ab []LimEv
+		// the abusive client: one address, its requests on 1-3 connections at once
+		abs := make([][]LimEv, 1+r.Int(3))
 		for i, n := 0, 3+r.Int(5); i < n; i++ {
-			ab = append(ab, LimEv{IP: 0, Conn: 0})
+			k := r.Int(len(abs))
+			abs[k] = append(abs[k], LimEv{IP: 0, Conn: 100 + k})
 		}
-		sc.Threads = append(sc.Threads, ab)
+		for _, ab := range abs {
+			if len(ab) > 0 {
+				sc.Threads = append(sc.Threads, ab)
+			}
+		}
 		for c, n := 1, 1+r.Int(3); c <= n; c++ {
 			th := []LimEv{{IP: c, Conn: c}}
 			if r.Pct(30) {
@@ -573,6 +579,15 @@ func genC19(r *simrt.Rand, tier string) any {
 	sc.Cfg = LimCfg{Global: []int{5, 10, 20}[r.Int(3)], PerIP: []int{1, 2, 3}[r.Int(3)], PerIPBurst: 1 + r.Int(3), PerConn: []int{0, 2}[r.Int(2)], ConnBurst: 2, CleanupMs: 300000}
 	n := 20 + r.Int(80)
 	fresh := 10
+	if r.Pct(1) {
+		// huge-table motif: tens of thousands of addresses have been heard from (each once, long ago) before the
+		// flood starts - whatever bounds the server puts on its per-address table, newcomers inside their limits
+		// are still admitted while the global budget has room
+		for i, m := 0, []int{1100, 5000, 17000, 33000, 70000}[r.Int(5)]; i < m; i++ {
+			fresh++
+			sc.Events = append(sc.Events, LimEv{DtNs: 1e9, IP: fresh, Conn: fresh})
+		}
+	}
 	for i := 0; i < n; i++ {
 		switch {
 		case r.Pct(75):
@@ -609,6 +624,9 @@ func shrinkLim(scAny any) []any {
 	}
 	n := len(sc.Events)
 	for chunk := n / 2; chunk >= 1; chunk /= 2 {
+		if n > 600 && n/chunk > 64 {
+			break // a huge history: only coarse cuts (each candidate is a copy); finer ones once it has shrunk
+		}
 		for start := 0; start+chunk <= n; start += chunk {
 			c := *sc
 			c.Events = append(append([]LimEv(nil), sc.Events[:start]...), sc.Events[start+chunk:]...)
@@ -628,6 +646,6 @@ func init() {
 		Rule: "one case = a timing sequence of 10-70 AllowRequest/AllowOperation events over 1-3 IPs, 1-3 connections and all four operation types on the fake clock, with gaps drawn from {0, a third of a token, just over k tokens, milliseconds, seconds, hours (longer than CleanupInterval)} and rates/bursts incl. zero and the fractional mount rate; oracles: per limiter instance admitted <= burst + rate*elapsed at every prefix (reference buckets), a request inside all limits is admitted when nothing was refused before, and the same sequence under CleanupInterval 1 ms and 24 h yields identical decisions; 8% of the sequential cases are the many-addresses motif: 105-420 addresses heard from once (more idle buckets than one capped cleanup pass removes) while one client keeps exceeding its own limit every 15-65 ms for 1-7 s, so that several passes run over a large table while that client's bucket is empty - no pass may hand it a fresh one; 25% of the cases are concurrent: 2-4 tasks issue 1-4 AllowRequest/AllowOperation calls each for 1-2 addresses and connections at ONE simulated instant under the seeded scheduler (buckets are created while others look them up; in half of these after earlier traffic and a silence of two hours, so that the periodic cleanup of idle limiters runs in the middle of the burst) and every limit may then admit at most its burst; non-trivial = at least one event; distinct by event digest",
 		Gen:  genC18, New: func() any { return &LimScn{} }, Run: runLimiter, Shrink: shrinkLim, Real: real, Stubbed: stub})
 	Register(&Prop{ID: "C19", Level: "exploration",
-		Rule: "one case = 20-100 events: an abusive client sending far beyond its per-IP/per-connection limit interleaved on the fake clock with compliant clients spaced seconds apart, under small global budgets; oracle: with reference buckets charged only by admitted requests, a compliant request inside its own limits is admitted whenever the admitted total leaves a token in the global budget; 25% of the cases are concurrent: an abusive client (3-7 requests) and 1-3 fresh clients call AllowRequest at one simulated instant from separate tasks under the seeded scheduler (global budget 1-3, per-client burst 1-2) and the decisions are checked with porcupine against a specification in which an admission needs room in both budgets and a refusal needs either an exhausted global budget (counting admitted requests only) or a client that has itself issued its burst; non-trivial = at least one event (>= 3 requests from >= 2 tasks when concurrent); distinct by event digest",
+		Rule: "one case = 20-100 events: an abusive client sending far beyond its per-IP/per-connection limit interleaved on the fake clock with compliant clients spaced seconds apart, under small global budgets; oracle: with reference buckets charged only by admitted requests, a compliant request inside its own limits is admitted whenever the admitted total leaves a token in the global budget; 1% of the sequential cases first hear from 1100-70000 addresses once each (whatever bound a server puts on its per-address table, newcomers inside their limits are still admitted); 25% of the cases are concurrent: an abusive client (3-7 requests from one address, spread over 1-3 connections and tasks) and 1-3 fresh clients call AllowRequest at one simulated instant from separate tasks under the seeded scheduler (global budget 1-3, per-client burst 1-2) and the decisions are checked with porcupine against a specification in which an admission needs room in both budgets and a refusal needs either an exhausted global budget (counting admitted requests only) or a client that has itself issued its burst; non-trivial = at least one event (>= 3 requests from >= 2 tasks when concurrent); distinct by event digest",
 		Gen:  genC19, New: func() any { return &LimScn{} }, Run: runLimiter, Shrink: shrinkLim, Real: real, Stubbed: stub})
 }
